@@ -331,7 +331,7 @@ func registerProducerReplayers(P string, orc outOracle) {
 		json.Unmarshal(raw, &cs)
 		redact.RegisterRedactErrorFn(scriptedHook)
 		defer redact.RegisterRedactErrorFn(nil)
-		al := sigma(cs.Full, cs.Invalid)
+		al := sigmaNamed(cs.Alpha, cs.Full, cs.Invalid)
 		precomputeRaw(al)
 		return produceSeq(al, cs.Ops, cs.Hook, orc, nil)
 	}
